@@ -110,7 +110,10 @@ def run(
     if coverage:
         cmd += ["-coverage", "1"]
     if simulate is not None:
-        cmd += ["-simulate", "num=%d" % simulate]
+        # TLC runs `num` random walks PER WORKER; at every step it evaluates the invariants (hence
+        # the emitting one) on ALL successors of the current state, so the number of emitted
+        # behaviours is about num * workers * branching factor of the last step
+        cmd += ["-simulate", "num=%d" % max(1, simulate // workers)]
         if depth is not None:
             cmd += ["-depth", str(depth)]
     if seed is not None:
